@@ -101,6 +101,7 @@ def gen(seed, idx, tier):
             scn["drive"]["field"] = {"kind": "ramp", "B": B0, "tmin": 0.0, "tmax": scn["options"]["solve_time"], "initial": rnd.choice([1.0, 0.0]), "final": 1.0 + rel * steps}
             scn["meta"]["slow_rel"] = rel
     scn["twin_units"] = [lu, fu, cu]
+    scn["shared_options"] = rnd.random() < 0.3
     return scn
 
 
@@ -229,12 +230,25 @@ def run(scn):
     try:
         if h1.outcome.startswith("rejected"):
             raise Discard(f"rejected:{h1.exc[0]}:{h1.exc[1][:40]}")
-        sim2, h2 = run_scenario(s2, checkers=[ck2], mesh_from=h1.device.mesh)
+        # some users re-use ONE SolverOptions instance and change its units in place for the second
+        # statement of the problem: the first solution must keep its own units and outputs
+        shared = scn.get("shared_options") and h1.solution is not None
+        if shared:
+            u_before = (h1.solution.field_units, h1.solution.current_units)
+            K_before = h1.solution.current_density.to("A/m").magnitude.copy()
+        sim2, h2 = run_scenario(s2, checkers=[ck2], mesh_from=h1.device.mesh, options_from=sim1.options if shared else None)
         sims.append(sim2)
         V = [v for v in sim1.violations if v["rule"] in ("terminal-flux-SI", "kernel-vs-direct")] + [v for v in sim2.violations if v["rule"] == "terminal-flux-SI"]
         V += ck1.flux_per_triangle(sim1, h1) + ck2.flux_per_triangle(sim2, h2)
         where = dict(units_a=[s1["device"]["length_units"], s1["options"]["field_units"], s1["options"]["current_units"]], units_b=[lu, fu, cu], screening=bool(scn["options"]["include_screening"]))
         where["changed"] = [n for n, a, b in zip(("length", "field", "current"), where["units_a"], where["units_b"]) if a != b]
+        if shared:
+            u_after = (h1.solution.field_units, h1.solution.current_units)
+            if u_after != u_before:
+                V.append(Violation("solution-units-changed", f"the first solution reported units {u_before}; after its options object was re-used with {where['units_b'][1:]} it reports {u_after}", **where))
+            K_after = h1.solution.current_density.to("A/m").magnitude
+            if not np.array_equal(K_after, K_before):
+                V.append(Violation("solution-output-changed", "the first solution's current density changed after its options object was re-used for another run", **where))
         if h2.outcome.startswith("rejected"):
             V.append(Violation("twin-rejected", f"the same problem stated in {where['units_b']} was rejected: {h2.exc}", **where))
         t1, t2 = traj(h1), traj(h2)
